@@ -11,7 +11,7 @@ for f in os.listdir(src):
     p=os.path.join(src,f)
     if os.path.isdir(p): shutil.copytree(p,os.path.join(dst,f))
     else: shutil.copy(p,dst)
-meta={'property':pid,'written_by':'independent sub-agent given only the property text and a scratch worktree of /repo at ead89de',
+meta={'property':pid,'written_by':'independent sub-agent given only the property text and a scratch worktree of /repo at a18f2e5',
       'needs_to_manifest':needs,
       'confirmed':'tools/confirm_seed.sh: demo passes on the unchanged tree; with patch.diff applied the library builds, the repository suite passes unedited (0 failures) and the demo fails',
       'ran':'mutants/try.sh seeded/%s/patch.diff %s (scratch copy of /repo under /tmp, removed afterwards)'%(name,pid),
